@@ -116,6 +116,17 @@ func framesSeeds() [][]byte {
 			out = append(out, cat([]byte{2 + 6, ab[0], ab[1], 0}, stream))
 		}
 	}
+	// many control frames / empty fragments between two fragments (stack use must not follow their number)
+	for _, masked := range []bool{false, true} {
+		a := byte(1 | 4)
+		if masked {
+			a = 4
+		}
+		stream := manyFrames(masked, 300, ref.Frame{H: ref.Header{Fin: true, Op: ref.OpPing}})
+		for _, e := range []byte{2, 3, 4} {
+			out = append(out, cat([]byte{e, a, 0, 0}, stream))
+		}
+	}
 	for _, l := range hostileLens {
 		for _, masked := range []bool{false, true} {
 			a := byte(1)
